@@ -50,6 +50,12 @@ CLAIMED = {
  "C13": dict(text="Sampling model (Model/Sample.v: draws are n x c matrices, reverse-order ancestral sampling through the backward conditionals). Proved for every length, shape and factor: zero draws return the posterior means pushed through the conditionals; samples are affine in the base draws with the composed-conditional linear map; unit draws recover the columns of that map, whose Gram matrix is the joint covariance of the Markov sequence; isotropic columns are independent (Gram = Cov (x) I_d, the repaired behaviour); the former shared-draw variant is refuted. Correspondence: zero draws, unit draws column by column, affinity and the Gram matrix of the implementation's sample map against the model for the three factorisations; requested draw shapes; key handling.",
              note=TB + "The pseudo-random generator is outside the model: base draws are supplied (unit vectors / zeros) through the public `sample` entry point's shape contract; distributional statements are proved as statements about the linear map.",
              tech="machine-checked proof in Coq (affine-map / Gram-matrix theorems by induction over the sequence) + model-vs-implementation correspondence"),
+ "C14": dict(text="PARTIAL (multi-step, smoother, TS1 and adaptive agreement are measured, not proved). Proved over any field, all sizes: the Kronecker embedding A -> A (x) I_d is a homomorphism for product, transpose, sum, scaling, identity and sandwich; the dense IWP transition with equal base scales and the TS0 selector ARE embeddings of the 1-d ones; embedding commutes with marginalisation, application, merging, the certified inverse, reversal and correction; one full uncalibrated dense TS0 filter step is the embedding of the isotropic step (any polynomial field); dense whitened RMS^2 = mean of the per-block RMS^2 for block-diagonal covariances. Correspondence: dense vs isotropic vs block-diagonal on the same problem and grid (3 calibrations x 3 strategies), TS1 on decoupled problems, isotropic = dense when the Jacobian is c(t) I, adaptive step counts.",
+             note=TB + "Adaptive comparisons use a rounding-size-perturbed twin of the reference to set the tolerance (adaptive runs are ill-conditioned w.r.t. rounding).",
+             tech="machine-checked proof in Coq (Kronecker-embedding homomorphism, one-step refinement dense = embedded isotropic) + cross-factorisation correspondence"),
+ "C15": dict(text="PARTIAL (jit and vmap are properties of the JAX runtime: measured only). Proved for a model of pytrees (mutual tree/forest types with shaped leaves): unravel(ravel x) = x and ravel(unravel v) = v in the dense, isotropic and block-diagonal orders; the three orders agree (iso[i][a] = dense[i d + a] = blockdiag[a][i]); ravel shapes; the ravel of a re-indexed (permuted) structure is the re-indexed ravel for every index map. Correspondence: pytree-vs-flat solves (dict/tuple/list/namedtuple/nested states, leaf ranks 0..3, unsorted keys) with an anchor at t0, permutations of components incl. per-dimension base scales, jit vs disable_jit, vmap vs one-at-a-time (step counts must match).",
+             note=TB + "jit/vmap/tree utilities are modelled, not verified; equal-program comparisons of adaptive runs use a perturbed twin to set the tolerance.",
+             tech="machine-checked proof in Coq (ravel/unravel round trips and permutation equivariance over a pytree model, partial) + metamorphic correspondence"),
  "C16": dict(text="PARTIAL: the one hand-written derivative rule (custom JVP of qr_r) is analysed in Coq: it preserves the Gram derivative for all shapes (theorem) and is refuted as derivative of the triangular factor (exact rational witness); the JAX transformation machinery itself cannot be modelled. The check compares jax.jvp, jax.jacrev and 4th-order finite differences of means, stds, scales and losses w.r.t. vector-field, initial-value, base-scale and noise parameters, with discriminator re-runs (exact QR rule, safe norm, triangular solve) that attribute mismatches to the listed known findings.",
              note=TB + "Forward/reverse agreement and finiteness are observed, not proved (JAX runtime).",
              tech="machine-checked proof in Coq (matrix identity + refutation witness) + AD-vs-finite-difference comparison with discriminators"),
